@@ -455,10 +455,19 @@ func (self *Analyzer) functionLiteral(node pAst.FunctionLiteralExpression) ast.A
 		node.Span(),
 		pAst.FN_MODIFIER_NONE,
 	)
+	// The literal has its own function context: the enclosing function and loop nesting must be restored afterwards
+	// (otherwise a later `return` would be checked against the literal's return type,
+	// and `break` / `continue` inside the literal would refer to a loop of the enclosing function).
+	previousFunction := self.currentModule.CurrentFunction
+	previousLoopDepth := self.currentModule.LoopDepth
 	self.currentModule.CurrentFunction = &moduleFn
+	self.currentModule.LoopDepth = 0
 
 	// analyze body
 	analyzedBlock := self.block(node.Body, false)
+
+	self.currentModule.CurrentFunction = previousFunction
+	self.currentModule.LoopDepth = previousLoopDepth
 
 	// analyze return type
 	if err := self.TypeCheck(analyzedBlock.Type(), fnReturntype, TypeCheckOptions{
